@@ -32,6 +32,7 @@ Holds(c, h, k) ==
     [] c = "BadReqIsClient" -> BadReqIsClient(h, k)
     [] c = "StatusTable"    -> StatusTable(h, k)
     [] c = "NoEscape"       -> NoEscape(h)
+    [] c = "FuzzOutcome"    -> FuzzOutcome(h, k)
     [] c = "HeadersOk"      -> HeadersOk(h, k)
     [] c = "ChunksBytes"    -> ChunksBytes(h, k)
     [] c = "ContentLength"  -> ContentLength(h, k)
